@@ -117,6 +117,11 @@ class Ctx:
         Each theorem is one obligation."""
         ok, out, failed = self.lake_build(modules)
         names = audit_names(os.path.join(LEAN, audit_file))
+        if getattr(self, "gen_fallback", False):
+            # proofs would only be about the committed snapshot, not about what /repo says now
+            for n in names:
+                self.oblige("thm:" + n, False, "regenerated definitions do not build; theorem not re-checked against the current source")
+            return False
         if not ok:
             for n in names:
                 bad = [f for f in failed if f.startswith(n + " ")]
@@ -157,6 +162,18 @@ class Ctx:
     def build_driver(self, exe):
         ok, out, failed = self.lake_build([exe])
         self.oblige("build:" + exe, ok, "; ".join(failed))
+        if not ok and any("Gen/" in f or "tie:gen" in f for f in failed + [o[0] for o in self.obligations if not o[1]]):
+            # The regenerated definitions no longer compile (tie broken).  To still SEARCH for a
+            # concrete failing input, rebuild the driver from the committed reference snapshot of Gen.
+            self.log("regenerated Gen does not build; falling back to the committed Gen snapshot for the search")
+            self.gen_fallback = True
+            gen = os.path.join(LEAN, "TsVerif", "Gen")
+            for f in os.listdir(gen):
+                rc, txt = sh(["git", "-C", ROOT, "show", "HEAD:lean/TsVerif/Gen/" + f])
+                if rc == 0:
+                    open(os.path.join(gen, f), "w").write(txt)
+            ok2, out2, failed2 = self.lake_build([exe])
+            self.notes.append("driver %s built from the committed reference Gen (regenerated Gen failed to build): %s" % (exe, ok2))
         return os.path.join(LEAN, ".lake", "build", "bin", exe)
 
     def cargo_bin(self, name, features=None):
